@@ -44,4 +44,17 @@ def pubShare (g : G) (D : Finset ℕ) (f : ℕ → F[X]) (j : ℕ) : G := pk g (
 
 end Module
 
+/-! ### Resharing (kyber `dkg` with `OldNodes`, `dkg/pedersen/reshare.go`)
+
+The old nodes `O` hold shares `p(i)` of the sharing polynomial `p`. Every old node `i` deals a
+sub-sharing `g i` of *its share* (`g i (0) = p i`) of the new degree; new node `j` combines what it
+received with the Lagrange weights of the old identifier set. -/
+
+/-- the new sharing polynomial: `Σ_{i∈O} λ_i^O · g_i`. -/
+noncomputable def resharePoly (O : Finset ℕ) (g : ℕ → F[X]) : F[X] := ∑ i ∈ O, C (lam O i : F) * g i
+
+/-- new secret share of node `j`: `Σ_{i∈O} λ_i^O · g_i(j)`. -/
+noncomputable def reshareShare (O : Finset ℕ) (g : ℕ → F[X]) (j : ℕ) : F :=
+  ∑ i ∈ O, (lam O i : F) * share (g i) j
+
 end CharonV.Frost
